@@ -704,6 +704,7 @@ type runner struct {
 	buffered bool
 	buf      []emitted
 	fbuf     []vh.OracleFailure
+	nbuf     []vh.ForeignNote
 }
 
 type emitted struct {
@@ -718,6 +719,15 @@ func (r *runner) fail(sig, what string) {
 		r.out.Fail(sig, what, strings.Join(r.lines, "\n"))
 	}
 	r.fails++
+}
+
+// note: seen here, but a statement of another property (vh.Out.Note); not counted as a failure of this one
+func (r *runner) note(owner, sig, what string) {
+	if r.buffered {
+		r.nbuf = append(r.nbuf, vh.ForeignNote{Owners: []string{owner}, Stream: "c17 main stream oracle", Op: sig, Why: what, Replay: strings.Join(r.lines, "\n")})
+	} else if r.out != nil {
+		r.out.Note(owner, "c17 main stream oracle", sig, what, strings.Join(r.lines, "\n"))
+	}
 }
 
 func encPoints(pts [][2]int64, full bool) []models.Point {
@@ -875,9 +885,12 @@ func (r *runner) exec(o op) {
 				cnt[id]++
 			}
 		}
+		// ("An insert request assigns every point to exactly one shard" is C15's statement - placement is an oracle argument of
+		// this property's model, see props/C17.py - so a departure is noted for C15's check, which evaluates the same on
+		// distributePoints and on the cluster; what C17 says about a point starts once it is stored.)
 		for _, p := range o.pts {
 			if res == "ok" && cnt[int(p[0])] != 1 {
-				r.fail(fmt.Sprintf("insert-once:%d", cnt[int(p[0])]), fmt.Sprintf("inserted point %d is held by %d shards", p[0], cnt[int(p[0])]))
+				r.note("C15", fmt.Sprintf("insert-once:%d", cnt[int(p[0])]), fmt.Sprintf("inserted point %d is held by %d shards after an insert that reported success (placement: C15)", p[0], cnt[int(p[0])]))
 			}
 		}
 	case "stop":
